@@ -307,12 +307,16 @@ struct BodyVisitor<'c, 'a> {
     collect_no: usize,
     map_collect_done: Vec<bool>,
     fold_loop_done: bool,
+    expr_as_hits: Vec<usize>,
     fn_path: String,
 }
 
 fn is_ref_operand(e: &Expr, refs: &[String]) -> bool {
     match e {
         Expr::Reference(_) => true,
+        // opt-in (`//@ refvars .borrow()`): a call of the named argument-less method is a reference-typed operand for R4 (e.g. `Borrow::borrow`
+        // returns `&Borrowed` by its signature); without the entry nothing changes
+        Expr::MethodCall(mc) => mc.args.is_empty() && refs.contains(&format!(".{}()", mc.method)),
         Expr::Paren(p) => is_ref_operand(&p.expr, refs),
         Expr::Path(p) => {
             if p.path.segments.len() == 1 {
@@ -550,6 +554,21 @@ impl<'c, 'a, 'ast> Visit<'ast> for BodyVisitor<'c, 'a> {
     }
 
     fn visit_expr(&mut self, e: &'ast Expr) {
+        // R28 (opt-in `//@ expr-as <replacement>` + quoted expected text): see directives.rs. The replaced text is not visited.
+        if !self.d.expr_as.is_empty() {
+            let (es, ee) = self.cx.f.range(e.span());
+            let got: String = self.cx.f.text[es..ee].chars().filter(|c| !c.is_whitespace()).collect();
+            for (k, ea) in self.d.expr_as.iter().enumerate() {
+                let want: String = ea.expect.join(" ").chars().filter(|c| !c.is_whitespace()).collect();
+                if !want.is_empty() && got == want {
+                    self.expr_as_hits[k] += 1;
+                    if self.expr_as_hits[k] == 1 {
+                        self.cx.edit(es, ee, ea.call.clone(), 0, "R28-expr-as");
+                    }
+                    return;
+                }
+            }
+        }
         match e {
             Expr::Binary(b) => {
                 if let Some((tr, m, assign)) = binop_trait(&b.op) {
@@ -827,13 +846,20 @@ impl<'c, 'a, 'ast> Visit<'ast> for BodyVisitor<'c, 'a> {
                 if !self.d.eta_ctor.is_empty()
                     && mc.method == "map"
                     && mc.args.len() == 1
-                    && matches!(&mc.args[0], Expr::Path(p) if p.path.segments.len() == 1 && self.d.eta_ctor.contains(&p.path.segments[0].ident.to_string())) =>
+                    && matches!(&mc.args[0], Expr::Path(p) if p.path.segments.len() == 1 && self.d.eta_ctor.iter().any(|x| x.split(':').next().unwrap() == p.path.segments[0].ident.to_string())) =>
             {
-                // R26 (opt-in `//@ eta-ctor <Name>`): `x.map(Name)` -> `x.map(|vx_c| Name(vx_c))` for a tuple-struct constructor `Name`: the same
-                // function by the definition of a tuple-struct constructor; Verus rejects "a datatype constructor as a function value".
+                // R26 (opt-in `//@ eta-ctor <Name>[:<FieldType>]`): `x.map(Name)` -> `x.map(|vx_c| Name(vx_c))` for a tuple-struct constructor `Name`:
+                // the same function by the definition of a tuple-struct constructor; Verus rejects "a datatype constructor as a function value".
+                // With `:<FieldType>` the closure is written with its (trivially true, CHECKED by Verus) contract
+                // `|vx_c: FieldType| -> (vx_r: Name) ensures vx_r == Name(vx_c) { Name(vx_c) }`, without which callers learn nothing from `map`.
                 let (as_, ae) = self.cx.f.range(mc.args[0].span());
                 let nm = self.cx.f.slice(mc.args[0].span()).to_string();
-                self.cx.edit(as_, ae, format!("|vx_c| {}(vx_c)", nm), 0, "R26-eta-ctor");
+                let ent = self.d.eta_ctor.iter().find(|x| x.split(':').next().unwrap() == nm).unwrap();
+                let t = match ent.split_once(':') {
+                    Some((_, ty)) => format!("|vx_c: {}| -> (vx_r: {}) ensures vx_r == {}(vx_c) {{ {}(vx_c) }}", ty, nm, nm, nm),
+                    None => format!("|vx_c| {}(vx_c)", nm),
+                };
+                self.cx.edit(as_, ae, t, 0, "R26-eta-ctor");
                 self.visit_expr(&mc.receiver);
             }
             Expr::Reference(r)
@@ -846,6 +872,26 @@ impl<'c, 'a, 'ast> Visit<'ast> for BodyVisitor<'c, 'a> {
                 let (s, e2) = self.cx.f.range(r.span());
                 let base = self.cx.f.slice(ix.expr.span()).to_string();
                 self.cx.edit(s, e2, format!("{}.as_mut_slice()", base), 0, "R27-full-range-mut");
+            }
+            Expr::MethodCall(mc) if mc.turbofish.is_none() && self.d.method_as.iter().any(|(m, _)| mc.method == m.as_str()) => {
+                // R28 (opt-in `//@ method-as <method> <fn>`): `RECV.<method>(ARGS)` -> `<fn>(RECV, ARGS)`. <fn> is a shim declared in the template whose
+                // external body is `recv.<method>(args)` itself (executed code unchanged) and whose contract is the ASSUMED specification of that std
+                // method (see directives.rs). RECV and ARGS are visited as usual, so the shape of the expression stays under proof.
+                let to = self.d.method_as.iter().find(|(m, _)| mc.method == m.as_str()).unwrap().1.clone();
+                let (s, e2) = self.cx.f.range(mc.span());
+                let (_, re) = self.cx.f.range(mc.receiver.span());
+                let size = (e2 - s) as i32;
+                self.cx.edit(s, s, format!("{}(", to), 100000 + size, "R28-method-as");
+                if mc.args.is_empty() {
+                    self.cx.edit(re, e2, ")".to_string(), 0, "R28-method-as");
+                } else {
+                    let (a0, _) = self.cx.f.range(mc.args[0].span());
+                    self.cx.edit(re, a0, ", ".to_string(), 0, "R28-method-as");
+                }
+                self.visit_expr(&mc.receiver);
+                for a in mc.args.iter() {
+                    self.visit_expr(a);
+                }
             }
             Expr::Call(c) if !self.d.call_as.is_empty() && matches!(&*c.func, Expr::Path(_)) => {
                 // R16 (path-call form, opt-in `//@ call-as <callee> <fn>`): the callee path is replaced by a shim of the template whose
@@ -1031,6 +1077,7 @@ fn process_fn(cx: &mut Ctx, sig: &syn::Signature, block: &Block, d: &FnDirective
         collect_no: 0,
         map_collect_done: vec![false; d.map_collect.len()],
         fold_loop_done: false,
+        expr_as_hits: vec![0; d.expr_as.len()],
         fn_path: fn_path.to_string(),
     };
     v.visit_block(block);
@@ -1065,6 +1112,11 @@ fn process_fn(cx: &mut Ctx, sig: &syn::Signature, block: &Block, d: &FnDirective
     }
     if d.fold_loop.is_some() && !v.fold_loop_done {
         die(&format!("lost fold-loop in {}", fn_path));
+    }
+    for (k, ea) in d.expr_as.iter().enumerate() {
+        if v.expr_as_hits[k] != 1 {
+            die(&format!("expr-as `{}` in {}: {} expressions have the quoted text (exactly one expected)", ea.call, fn_path, v.expr_as_hits[k]));
+        }
     }
     for n in d.loops.keys() {
         if !v.loops_done.contains(n) {
